@@ -230,14 +230,24 @@ def gtf_lines(which="family"):
             g("A5", "start_codon", 150, 152, "g1", "t1"),
             g("B2", "exon", 4000, 4100, "g2", "t3", seqid="chr2", strand="-"),
             g("A6", "CDS", 2000, 2100, "g1", "t9"),          # a transcript that owns no exon
+            g("A7", "exon", 120, 450, "g1", "t1"),            # starts inside the first exon, ends after the later-starting one
+            g("B3", "exon", 4050, 6000, "g2", "t3", seqid="chr2", strand="-"),   # the furthest end is not on the last-starting exon
         ]
     if which == "explicit":
         # gene and transcript lines present in the file
         return [
-            feature("G", "gene", 90, 1200, {"gene_id": ["g1"]}),
-            g("T", "transcript", 95, 450, "g1", "t1"),
+            feature("G", "gene", 90, 1200, {"gene_id": ["g1"], "Name": ["G1"]}),
+            feature("T", "transcript", 95, 450, {"gene_id": ["g1"], "transcript_id": ["t1"], "tag": ["basic"]}),
             g("A1", "exon", 100, 200, "g1", "t1"),
             g("A2", "exon", 300, 400, "g1", "t1"),
+            g("T2", "transcript", 500, 600, "g1", "t2"),      # a transcript line whose exons are not in the file
+        ]
+    if which == "shared-id":
+        # the id X names a gene (through its exons) and, on a CDS line of gene Y, a transcript that owns no exon
+        return [
+            g("S1", "exon", 100, 200, "X", "T1"),
+            g("S2", "exon", 300, 400, "X", "T1"),
+            g("S3", "CDS", 5000, 5100, "Y", "X"),
         ]
     raise ValueError(which)
 
